@@ -57,7 +57,14 @@ def run_case(c):
             calls.append(SETTERS[f])
     if "escape" in flags:
         surr = "surrogates" in flags
-        calls.append(lambda b: b.with_escaping_of_non_ascii_chars(use_surrogate_pairs=surr))
+        # the setter may be called several times; the last call decides (as in the Rust library)
+        hist = c.get("escape_history") or [surr]
+
+        def esc(b, hist=hist):
+            for v in hist:
+                b = b.with_escaping_of_non_ascii_chars(use_surrogate_pairs=v)
+            return b
+        calls.append(esc)
     if "no_start_anchor" in flags and "no_end_anchor" in flags and c["idx"] % 3 == 0:
         calls = [x for x in calls if x not in (SETTERS["no_start_anchor"], SETTERS["no_end_anchor"])]
         calls.append(lambda b: b.without_anchors())
